@@ -39,8 +39,8 @@ func init() {
 		Compare:    cmpC08,
 		Shrink:     shrinkC08,
 		Assumptions: []string{
-			"DecodeObject (object-valued headers: propsFromString / makeObject, C05) and the JSON body decoder (encoding/json, C06) are inputs of the model: each case states their outcome; the object-header claim is compared with the real decoder through the verif hook on every case, the JSON claim is computed by encoding/json in the generator and tied by the comparison itself",
-			"the decoding of every other header kind is computed by the model (decodeHeader) and compared with the real decoder (verif hook) on every case",
+			"the JSON body decoder (encoding/json, C06) is an input of the model: each case states its outcome, computed by encoding/json in the generator and tied by the comparison itself",
+			"the decoding of every header (untyped, primitive, array, flat object; plain and exploded) is computed by the model (decodeHeader) and compared with the real decoder (verif hook) on every case; the one corner left as an input (a schema applied to the empty property name) is never generated",
 			"numbers in schemas and bodies are small integers (no float rounding); header integers range over int64 and beyond; strings are ASCII",
 			"documents are resolved (no nil ResponseRef.Value / SchemaRef.Value); headers use the default (simple, not exploded) serialization; every present header has at least one value and only the first is decoded",
 			"no Content-Type whose registered decoder is YAML, CSV, urlencoded, multipart or zip is generated (their outcome would be an input of the model as well)",
@@ -201,6 +201,10 @@ func runC08(c hx.Case) any {
 				hm := c08Map(hv)
 				h := &openapi3.Header{}
 				h.Required = jbool(hm, "required")
+				if jbool(hm, "explode") {
+					t := true
+					h.Explode = &t
+				}
 				if hm["schema"] != nil {
 					h.Schema = c08Schema(hm["schema"]).NewRef()
 				} else {
@@ -381,8 +385,12 @@ func c08Val(v any) c08J { return c08J{"k": "val", "v": v} }
 var c08Nil = c08J{"k": "nil"}
 var c08Err = c08J{"k": "err"}
 
-func c08Hdr(name string, required bool, schema any, dec any) c08J {
-	return c08J{"name": name, "required": required, "schema": schema, "dec": dec}
+// the fourth argument is unused since the model decodes every header itself (kept for the older corpus files' shape)
+func c08Hdr(name string, required bool, schema any, _ any) c08J {
+	return c08J{"name": name, "required": required, "schema": schema}
+}
+func c08HdrX(name string, required bool, schema any, explode bool) c08J {
+	return c08J{"name": name, "required": required, "schema": schema, "explode": explode}
 }
 func c08Resp(key string, headers []any, content []any) c08J {
 	return c08J{"key": key, "headers": headers, "content": content}
@@ -413,8 +421,8 @@ func c08HeaderKinds() []c08HK {
 	objWO := c08S("type", "object", "properties", []any{[]any{"n", c08S("type", "string")}, []any{"pw", pw}})
 	objWOReq := c08S("type", "object", "required", []any{"pw"}, "properties", []any{[]any{"n", c08S("type", "string")}, []any{"pw", pw}})
 	objPlain := c08S("type", "object", "required", []any{"n"}, "properties", []any{[]any{"m", c08S("type", "integer")}, []any{"n", c08S("type", "string", "readOnly", true)}})
-	// `dec` is read by the model for object-typed headers only (DecodeObject is an input of the model); for every
-	// other kind the model decodes the raw text itself and the run compares that with the real decoder.
+	// the model decodes every header itself; `dec` of the raw/dec pairs is unused (the run compares the model's
+	// decoding with the real decoder on every case)
 	t := func(raws ...string) []rd {
 		out := []rd{}
 		for _, r := range raws {
@@ -444,9 +452,18 @@ func c08HeaderKinds() []c08HK {
 		{c08S("type", "array", "items", c08S("type", "array", "items", c08S("type", "integer"))), t("1")},
 		{c08S("type", "array"), t("1,2", "", ",1", "a")}, // no items: nil dereference (F-C08-5)
 		{c08S("type", "array", "nullable", true), t("1", "")},
-		{objWO, []rd{{"pw,x", c08Val(c08J{"pw": "x"})}, {"n,x", c08Val(c08J{"n": "x"})}, {"n,x,pw,y", c08Val(c08J{"n": "x", "pw": "y"})}, {"n", c08Err}}},
-		{objWOReq, []rd{{"pw,x", c08Val(c08J{"pw": "x"})}, {"n,x", c08Val(c08J{"n": "x"})}}},
-		{objPlain, []rd{{"n,x", c08Val(c08J{"n": "x"})}, {"m,4", c08Val(c08J{"m": 4})}, {"m,4,n,x", c08Val(c08J{"m": 4, "n": "x"})}, {"m,zz", c08Err}, {"", c08Err}, {"q,1", c08Val(c08J{})}}},
+		{objWO, t("pw,x", "n,x", "n,x,pw,y", "n", "", "n,x,n,y", "pw,x,pw,", "q,1", "n,,pw,", ",", "n,x,", "n=x", "n=x,pw=y")},
+		{objWOReq, t("pw,x", "n,x", "n,x,pw,y", "pw,")},
+		{objPlain, t("n,x", "m,4", "m,4,n,x", "m,zz", "", "q,1", "m,4,m,zz", "m,zz,m,4", "m,,n,x", "m,+4", "n,x,q", "m=4,n=x", "m=4", "m=4=5", "m")},
+		// properties of every kind inside an object header: untyped and empty → no entry, object-typed → the text, array-typed → error
+		{c08S("type", "object", "properties", []any{[]any{"u", c08S()}, []any{"o", c08S("type", "object")}, []any{"a", c08S("type", "array", "items", c08S("type", "integer"))}, []any{"b", c08S("type", "boolean")}}),
+			t("u,1", "o,1", "a,1", "b,T", "b,no", "u,1,o,x,b,0", "b,", "o,", "a,")},
+		// additionalProperties as a schema / false / true
+		{c08S("type", "object", "properties", []any{[]any{"m", c08S("type", "integer")}}, "addl", c08S("type", "integer", "maximum", 9)),
+			t("m,4,q,7", "q,7", "q,70", "q,x", "q,", "q,7,q,x", "q,x,q,7", "m,4,m,5", "q,1,r,2", "m,x,q,1")},
+		{c08S("type", "object", "properties", []any{[]any{"m", c08S("type", "integer")}}, "addl", false), t("m,4,q,7", "q,7", "m,4")},
+		{c08S("type", "object", "addl", c08S("type", "string", "writeOnly", true)), t("q,x", "q,")},
+		{c08S("type", "object", "nullable", true), t("", "a,b", "a")},
 	}
 }
 
@@ -554,6 +571,13 @@ func genC08(ctx *hx.Ctx, emit func(hx.Case)) {
 		}
 		for _, req := range []bool{false, true} {
 			emit(c08Case("GET", 200, []any{c08Resp("200", []any{c08Hdr("X-A", req, hk.schema, c08Nil)}, nil)}, []any{[]any{"X-Other", "1"}}, "", c08Err, 0))
+		}
+	}
+	for _, hk := range kinds { // explode: true matters for object-valued headers only
+		for _, rd := range hk.raws {
+			if jstr(c08Map(hk.schema), "type") == "object" || strings.Contains(rd.raw, "=") {
+				emit(c08Case("GET", 200, []any{c08Resp("200", []any{c08HdrX("X-A", true, hk.schema, true)}, nil)}, []any{[]any{"X-A", rd.raw}}, "", c08Err, 0))
+			}
 		}
 	}
 	for _, second := range []string{"x", "", "9"} { // a second value of the header is never looked at
@@ -871,11 +895,15 @@ func c08Random(r *hx.Rng, kinds []c08HK) hx.Case {
 		if h.present {
 			h.dec = rd.dec
 			raw := rd.raw
-			if jstr(c08Map(hk.schema), "type") != "object" && r.Chance(30) {
+			if r.Chance(30) {
 				// free text over the alphabet the decoders care about (the model decodes it itself)
+				alphabet := []string{"0", "1", "7", "9", "+", "-", ",", ",", "x", "t", "T", " ", "true", "12"}
+				if jstr(c08Map(hk.schema), "type") == "object" {
+					alphabet = []string{"n", "m", "pw", "q", "u", "o", "a", "b", ",", ",", ",", "=", "x", "4", "zz", "T", "7"}
+				}
 				raw = ""
-				for k, n := 0, r.Intn(6); k < n; k++ {
-					raw += hx.Pick(r, []string{"0", "1", "7", "9", "+", "-", ",", ",", "x", "t", "T", " ", "true", "12"})
+				for k, n := 0, r.Intn(7); k < n; k++ {
+					raw += hx.Pick(r, alphabet)
 				}
 			}
 			if r.Chance(8) {
@@ -904,7 +932,7 @@ func c08Random(r *hx.Rng, kinds []c08HK) hx.Case {
 			if r.Chance(8) {
 				schema = nil
 			}
-			hs = append(hs, c08Hdr(name, r.Chance(50), schema, h.dec))
+			hs = append(hs, c08HdrX(name, r.Chance(50), schema, r.Chance(12)))
 		}
 		content := []any{}
 		for _, m := range []string{"application/json", "application/*", "*/*", "text/plain", "application/json; charset=utf-8"} {
